@@ -299,14 +299,18 @@ def plan_text(head, ops, sched=None):
     return "\n".join(head + ops + ([sched] if sched else []) + ["end"]) + "\n"
 
 
-def exec_plans(binary, texts, trace=False):
+def exec_plans(binary, texts, trace=False, dump_sched=False):
     """Execute plans (each in a forked child of one fresh simrun process). Returns list of result dicts."""
     inp = "".join(texts)
-    cmd = [binary, "exec"] + (["--trace"] if trace else [])
+    cmd = [binary, "exec"] + (["--trace"] if trace else []) + (["--dump-sched"] if dump_sched else [])
     p = subprocess.run(cmd, input=inp, stdout=subprocess.PIPE, stderr=subprocess.PIPE, text=True, errors="replace")
     out = [None] * len(texts)
+    scheds = {}
     for line in p.stdout.split("\n"):
-        if line.startswith("X "):
+        if line.startswith("SCHED "):
+            f = line.split()
+            scheds[int(f[1])] = " ".join(f[2:])
+        elif line.startswith("X "):
             head, *rest = line.split("\t")
             f = head.split()
             i = int(f[1])
@@ -329,7 +333,23 @@ def exec_plans(binary, texts, trace=False):
     for i in range(len(out)):
         if out[i] is None:
             out[i] = dict(status="lost", key=None, evhash="")
+        if i in scheds:
+            out[i]["sched"] = scheds[i]
     return out, p.stderr
+
+
+def attach_schedule(binary, text, key):
+    """Worlds with a scheduler: turn the seed-derived schedule of this run into an explicit one, so that
+    sub-plans keep their meaning while shrinking and the replay file does not depend on generator code."""
+    head, ops, sched = parse_plan(text)
+    if sched:
+        return text
+    rs, _ = exec_plans(binary, [text], dump_sched=True)
+    if rs[0].get("key") != key or not rs[0].get("sched"):
+        return text
+    cand = plan_text(head, ops, "sched " + rs[0]["sched"])
+    chk, _ = exec_plans(binary, [cand])
+    return cand if chk[0].get("key") == key else text
 
 
 def shrink(binary, text, key, budget_s=45, max_cands=3000):
@@ -503,6 +523,8 @@ def do_check(prop, tier, seed, scale=1.0, jobs=NCPU):
             if len(reported) >= 3:
                 unshrunk.append((key, len(xs)))     # same batch, further symptom keys: listed, not minimised
                 continue
+            if x["world"] == "memc":
+                text = attach_schedule(binary, text, key)
             small, cands = shrink(binary, text, key, budget_s=30 if tier == "quick" else 90)
             final, stderr = exec_plans(binary, [small], trace=True)
             if final[0]["key"] != key:
